@@ -120,6 +120,20 @@ def extra(binary, build, tier, rng):
             continue
         def fin(w):
             # finite parameters of every magnitude (the property is about finite parameters)
+            k = rng.below(4)
+            if k == 0:
+                # the representational corners of the type: largest finite values (their reciprocals are subnormal), smallest normal and
+                # subnormal values, the top and the bottom binades
+                mant, ebits = (52, 11) if w == 64 else (23, 8)
+                emax = (1 << ebits) - 2
+                e = rng.choice([emax, emax, emax - 1, emax - 2, 0, 0, 1, 2])
+                m = rng.choice([0, 1, (1 << mant) - 1, rng.bits(mant), 1 << (mant - 1)])
+                if e == 0 and m == 0:
+                    m = 1
+                return (rng.below(2) << (w - 1)) | (e << mant) | m
+            if k == 1:
+                from . import gen_float as GF
+                return GF.finite_f(rng, w)
             m = rng.choice([0.0, 1.0, -1.0, 0.1, 1e-300 if w == 64 else 1e-30, 1e300 if w == 64 else 1e30, 3.5, 1e-5, 123456.789, rng.bits(30) / 1024.0 - 100])
             return f64b(m) if w == 64 else f32b(m)
         w = 32 if kind.endswith("32") else 64
